@@ -4,6 +4,7 @@ import (
 	"bytes"
 	"errors"
 	"fmt"
+	"os"
 	"regexp"
 	"runtime"
 	"strconv"
@@ -422,6 +423,10 @@ type c02dout struct {
 	notifs   [][][]byte // per request: GetSubscriptionMessages(notifID) right after the call
 	openErr  string
 	badOptOK string // "" or what went wrong with the refused call
+	// what the transport did: sizes of the delivered reads, the delivered bytes, the writes
+	readLog   []int
+	delivered []byte
+	writes    []sim.WriteEvent
 }
 
 func c02runSession(cs c02dcase) (o c02dout) {
@@ -580,7 +585,161 @@ func c02runSession(cs c02dcase) (o c02dout) {
 	case <-done:
 	case <-time.After(2 * time.Second):
 	}
+	s.Snapshot(func() {
+		o.readLog = append([]int{}, s.ReadLog...)
+		o.delivered = append([]byte{}, s.DeliveredBytes()...)
+		o.writes = append([]sim.WriteEvent{}, s.Writes...)
+	})
 	return o
+}
+
+// c02asIs asks the AS-IS model of the session read loop (Netconf/Store.lean bufStep: the delimiter
+// pattern over everything buffered, after every read; the request C08's harness uses for its
+// counterfactual runs) what each call of the session gets, given the reads exactly as the
+// transport delivered them (with CR removed per read, as the channel read loop does: that is the
+// mechanism of known finding F14), and decodes that with the model of Record. A failure is
+// attributed to known finding F2 / F14 only if this prediction is exactly what the implementation
+// returned: a different failure on the same kind of input is a different violation.
+// Returns per request "T" (no message: the call times out), or "failed result-hex"; nil when the
+// session is too large for the model run.
+func c02asIsRun(c *ctx, cs c02dcase, o c02dout, upto int, idleEvery bool) []string {
+	ver := "1.0"
+	if cs.v11 {
+		ver = "1.1"
+	}
+	// emitted-byte offset at which each request's output (echo, notification, reply) starts
+	var starts []int
+	for k := 0; k <= upto; k++ {
+		tag := []byte(`message-id="` + strconv.Itoa(101+k) + `"`)
+		found := -1
+		for _, w := range o.writes {
+			if bytes.Contains(w.Data, tag) && bytes.Contains(w.Data, []byte("<rpc")) {
+				found = w.EmittedBefore
+				break
+			}
+		}
+		if found < 0 {
+			return nil
+		}
+		starts = append(starts, found)
+	}
+	work := 0
+	for _, n := range o.readLog {
+		work += n
+	}
+	if len(o.readLog)*work > 40_000_000 {
+		return nil
+	}
+	var script []string
+	off, k := 0, -1
+	pos := 0
+	for _, n := range o.readLog {
+		chunk := o.delivered[pos : pos+n]
+		pos += n
+		start := off
+		off += n
+		if start < starts[0] {
+			continue // the hello exchange: read by Open, not by the read loop
+		}
+		for k+1 <= upto && start >= starts[k+1] {
+			if k >= 0 {
+				script = append(script, "R-", "P", "X")
+			}
+			k++
+			script = append(script, "C")
+		}
+		if k+1 <= upto+1 && k == upto && upto+1 < cs.nreq {
+			// reads that belong to later requests are not needed
+			if nxt := c02nextStart(o, upto+1); nxt >= 0 && start >= nxt {
+				break
+			}
+		}
+		chunk = bytes.ReplaceAll(chunk, []byte("\r"), nil)
+		if len(chunk) > 0 {
+			script = append(script, "R"+vlib.Hex(chunk))
+			if idleEvery {
+				script = append(script, "R-")
+			}
+		}
+	}
+	for k < upto { // a request whose output produced no read at all
+		if k >= 0 {
+			script = append(script, "R-", "P", "X")
+		}
+		k++
+		script = append(script, "C")
+	}
+	// the read loop idles (an iteration with an empty read) once the burst is through
+	script = append(script, "R-", "P", "X")
+	f := strings.Fields(c.ask([]string{"c08 sess " + ver + " " + strings.Join(script, ";")})[0])
+	if os.Getenv("C02_DEBUG") != "" {
+		for _, it := range script {
+			if strings.HasPrefix(it, "R") {
+				b, _ := vlib.UnHex(it[1:])
+				fmt.Fprintf(os.Stderr, "R %q\n", b)
+			} else {
+				fmt.Fprintln(os.Stderr, it)
+			}
+		}
+		fmt.Fprintln(os.Stderr, "ANSWER", f)
+	}
+	if len(f) < 3 {
+		return nil
+	}
+	got := map[int]string{}
+	if f[2] != "." {
+		for _, it := range strings.Split(f[2], ",") {
+			kv := strings.SplitN(it, ":", 2)
+			id, _ := strconv.Atoi(kv[0])
+			if len(kv) == 2 {
+				got[id] = kv[1]
+			}
+		}
+	}
+	out := make([]string, upto+1)
+	var lines []string
+	var idx []int
+	for q := 0; q <= upto; q++ {
+		m, ok := got[101+q]
+		if !ok || m == "T" {
+			out[q] = "T"
+			continue
+		}
+		lines = append(lines, "c02 raw "+ver+" "+m)
+		idx = append(idx, q)
+	}
+	for j, a := range c.ask(lines) {
+		g := strings.Fields(a)
+		if len(g) == 3 {
+			out[idx[j]] = g[0] + " " + g[2]
+		}
+	}
+	return out
+}
+
+// c02asIs: the two schedules of the read loop that differ in observable outcome: an idle iteration
+// only once a burst is through, or after every read (whether the loop idles between two reads is
+// scheduling; it can move the cut point of an F2 truncation).
+func c02asIs(c *ctx, cs c02dcase, o c02dout, upto int) [][]string {
+	a := c02asIsRun(c, cs, o, upto, false)
+	if a == nil {
+		return nil
+	}
+	b := c02asIsRun(c, cs, o, upto, true)
+	if b == nil {
+		return [][]string{a}
+	}
+	return [][]string{a, b}
+}
+
+func c02nextStart(o c02dout, k int) int {
+	tag := []byte(`message-id="` + strconv.Itoa(101+k) + `"`)
+	for _, w := range o.writes {
+		if bytes.Contains(w.Data, tag) && bytes.Contains(w.Data, []byte("<rpc")) {
+			return w.EmittedBefore
+		}
+	}
+	return -1
 }
 
 func runC02driver(c *ctx) {
@@ -746,12 +905,11 @@ func runC02driver(c *ctx) {
 				// does so when a read boundary falls right after it ($ matches at end of buffer)
 				hl = bytes.Contains(body, []byte("\n##"))
 			}
+			if rq.op == c02opEstablish && !rq.subOK && !wantFailed && o.errs[k] == "netconf" {
+				continue // a reply without the subscription result / id elements: an explicit error
+			}
 			if rq.op == c02opEstablish && !rq.subOK && !wantFailed && !cr && !hl {
-				// a healthy reply that lacks the subscription result / id elements: an explicit error
-				// (finding C02-F22(a) was an index panic here), never a success
-				if o.errs[k] == "netconf" {
-					continue
-				}
+				// … (finding C02-F22(a) was an index panic here), never a success
 				res.Fail("oracle", caseLine, fmt.Sprintf("%s: reply without subscription result: err=%s failed=%v result %s ; expected a NETCONF error",
 					desc, o.errs[k], o.failed[k], c02clipS(o.results[k], 300)), "driver:subscription-reply-without-result:"+o.errs[k])
 				break
@@ -782,11 +940,37 @@ func runC02driver(c *ctx) {
 				continue
 			}
 			sig := "driver:wrong-result"
+			// known findings F14 / F2 are identified by the input AND by the outcome their mechanism
+			// produces for the reads as they were delivered (as-is model of the read loop + Record)
+			explained, predicted := true, "not evaluated (session too large for the model run)"
+			if cr || hl {
+				if preds := c02asIs(c, cs, o, k); preds != nil {
+					explained = false
+					predicted = ""
+					for _, pred := range preds {
+						predicted += pred[k] + " | "
+						if pred[k] == "T" {
+							explained = explained || o.errs[k] == "timeout"
+						} else {
+							explained = explained || (o.errs[k] == "nil" && pred[k] == b2s01(o.failed[k])+" "+vlib.Hex([]byte(o.results[k])))
+						}
+					}
+					if explained {
+						res.Count("driver:known-finding-attribution:confirmed-by-as-is-model")
+					}
+				} else {
+					res.Count("driver:known-finding-attribution:by-input-only(too-large)")
+				}
+			}
 			switch {
-			case cr:
+			case cr && explained:
 				sig = "driver:cr-in-payload"
-			case hl:
+			case hl && explained:
 				sig = "driver:hash-hash-line-in-frame"
+			case cr:
+				sig = "driver:cr-in-payload-not-explained-by-F14"
+			case hl:
+				sig = "driver:hash-hash-line-not-explained-by-F2"
 			case o.errs[k] != "nil":
 				sig = "driver:error:" + o.errs[k]
 			case !cs.v11 && bytes.HasPrefix(rq.payload, []byte(c02xmlDecl)) && o.failed[k] == wantFailed &&
@@ -798,8 +982,12 @@ func runC02driver(c *ctx) {
 			case o.results[k] == want:
 				sig = "driver:wrong-failed-flag"
 			}
-			res.Fail("oracle", caseLine, fmt.Sprintf("%s: err=%s failed=%v result %s ; expected failed=%v %s",
-				desc, o.errs[k], o.failed[k], c02clipS(o.results[k], 400), wantFailed, c02clipS(want, 400)), sig)
+			extra := ""
+			if strings.Contains(sig, "not-explained") {
+				extra = fmt.Sprintf(" ; the read loop AS IT IS (with its known finding), fed the %d reads as delivered, would give: %s", len(o.readLog), c02clipS(predicted, 300))
+			}
+			res.Fail("oracle", caseLine, fmt.Sprintf("%s: err=%s failed=%v result %s ; expected failed=%v %s%s",
+				desc, o.errs[k], o.failed[k], c02clipS(o.results[k], 400), wantFailed, c02clipS(want, 400), extra), sig)
 			break
 		}
 	}
